@@ -453,11 +453,11 @@ func RunChurn(c UCase) pbt.Outcome {
 
 var specChurn = pbt.Register(&pbt.Spec[UCase]{
 	Property: "C09", Name: "C09.churn",
-	Rule: "E4 free-running under -race: 1..2 clearer goroutines cycle TryLockKey/UnlockKey/ClearKey over up to 20000 idle keys of their own while 2..48 workers (more goroutines than processors: a goroutine is descheduled in the middle of a call) each walk through 500..6000 never-seen keys of their own " +
+	Rule: "E4 free-running under -race: 1..2 clearer goroutines cycle TryLockKey/UnlockKey/ClearKey over up to 20000 idle keys of their own while 2..12 workers each walk through 500..6000 never-seen keys of their own " +
 		"(TryLockKey or TryRLockKey must succeed, a second TryLockKey while holding must be refused, after the release it must succeed again; some keys are cleared afterwards, some stay live); every key is private to one goroutine, " +
 		"so each answer is determined whatever the interleaving; non-trivial = >=1024 ClearKey calls happened alongside >=2 workers",
 	Gen: func(t *rapid.T) UCase {
-		return UCase{RW: rapid.Bool().Draw(t, "rw"), Workers: rapid.SampledFrom([]int{2, 3, 4, 6, 24, 48}).Draw(t, "workers"), Iters: rapid.SampledFrom([]int{500, 2000, 6000}).Draw(t, "iters"),
+		return UCase{RW: rapid.Bool().Draw(t, "rw"), Workers: rapid.SampledFrom([]int{2, 3, 4, 6, 12}).Draw(t, "workers"), Iters: rapid.SampledFrom([]int{500, 2000, 6000}).Draw(t, "iters"),
 			Clearers: rapid.IntRange(1, 2).Draw(t, "clearers"), Clears: rapid.SampledFrom([]int{1500, 5000, 20000}).Draw(t, "clears"),
 			KeepLive: rapid.SampledFrom([]int{0, 2, 10}).Draw(t, "keep"), Procs: rapid.SampledFrom([]int{2, 3, 4, 4, 8, 16}).Draw(t, "procs")}
 	},
@@ -470,13 +470,13 @@ func TestC09Churn(t *testing.T) { pbt.Check(t, specChurn) }
 // the windows between them): many more goroutines than processors, ten times the iterations.
 var specChurnFast = pbt.Register(&pbt.Spec[UCase]{
 	Property: "C09", Name: "C09.churnfast",
-	Rule: "C09.churn without the race detector: 24..64 workers on 4..8 processors, 5000..60000 never-seen private keys each, every worker clearing most of its own idle keys again (the keyed mutex's per-key storage is handed back and taken again all the time)",
+	Rule: "C09.churn without the race detector: 24..64 workers on 4..8 processors, 3000..30000 never-seen private keys each, every worker clearing most of its own idle keys again (the keyed mutex's per-key storage is handed back and taken again all the time)",
 	Gen: func(t *rapid.T) UCase {
-		return UCase{RW: rapid.Bool().Draw(t, "rw"), Workers: rapid.SampledFrom([]int{24, 48, 64}).Draw(t, "workers"), Iters: rapid.SampledFrom([]int{5000, 20000, 60000}).Draw(t, "iters"),
+		return UCase{RW: rapid.Bool().Draw(t, "rw"), Workers: rapid.SampledFrom([]int{24, 48, 64}).Draw(t, "workers"), Iters: rapid.SampledFrom([]int{3000, 10000, 30000}).Draw(t, "iters"),
 			Clearers: rapid.IntRange(0, 2).Draw(t, "clearers"), Clears: rapid.SampledFrom([]int{5000, 50000}).Draw(t, "clears"),
 			KeepLive: rapid.SampledFrom([]int{2, 10, 50}).Draw(t, "keep"), Procs: rapid.SampledFrom([]int{4, 8}).Draw(t, "procs")}
 	},
-	Run: RunChurn, Quick: 8, Thorough: 30, Crashy: true, Retries: 30, CaseCPU: 300e9,
+	Run: RunChurn, Quick: 4, Thorough: 30, Crashy: true, Retries: 30, CaseCPU: 300e9,
 })
 
 func TestC09ChurnFast(t *testing.T) { pbt.Check(t, specChurnFast) }
